@@ -34,7 +34,11 @@ impl Axecutor {
                 s
             }; (set: FLAGS_UNAFFECTED; clear: 0)]
         } else {
-            Ok(())
+            // the source is read (and can fault) whatever the condition; the destination keeps its
+            // value (a 32-bit destination is zero-extended like any other 32-bit write)
+            calculate_r_rm![u16; self; i; |d, _| {
+                d
+            }; (set: FLAGS_UNAFFECTED; clear: 0)]
         }
     }
 
@@ -49,7 +53,11 @@ impl Axecutor {
                 s
             }; (set: FLAGS_UNAFFECTED; clear: 0)]
         } else {
-            Ok(())
+            // the source is read (and can fault) whatever the condition; the destination keeps its
+            // value (a 32-bit destination is zero-extended like any other 32-bit write)
+            calculate_r_rm![u32; self; i; |d, _| {
+                d
+            }; (set: FLAGS_UNAFFECTED; clear: 0)]
         }
     }
 
@@ -64,7 +72,11 @@ impl Axecutor {
                 s
             }; (set: FLAGS_UNAFFECTED; clear: 0)]
         } else {
-            Ok(())
+            // the source is read (and can fault) whatever the condition; the destination keeps its
+            // value (a 32-bit destination is zero-extended like any other 32-bit write)
+            calculate_r_rm![u64; self; i; |d, _| {
+                d
+            }; (set: FLAGS_UNAFFECTED; clear: 0)]
         }
     }
 }
